@@ -583,3 +583,13 @@ Theorem c10_code_arrayvec_push_any : forall T n arr v,
                gen_arrayvec_deref T (n + 1) arr' = gen_arrayvec_deref T n arr ++ [v].
 Proof. exact gen_arrayvec_push_ok. Qed.
 Print Assumptions c10_code_arrayvec_push_any.
+
+(* ================================================================== what a failed try_response leaves behind (translated from the source) *)
+(** Flow<RecvResponse>::try_response translated in error-state mode ([gen_try_response_errst]): when it fails, close reasons, the
+    await flag, status and location are as they were -- no close reason is recorded for a response that was never produced
+    (proofs/Gen2_equiv_flow_response_errst.v). *)
+From Hoot.proofs Require Import Gen2_equiv_flow_response_errst.
+Theorem c10_code_failed_try_response_changes_nothing : forall rs aw st loc cr x,
+  gen_try_response_errst rs aw st loc cr = Some x -> x = (rs, aw, st, loc).
+Proof. exact gen_try_response_errst_unchanged. Qed.
+Print Assumptions c10_code_failed_try_response_changes_nothing.
